@@ -36,12 +36,14 @@ def line_to_trace(l: dict) -> dict:
     elif c == 'PowerConstant':
         out['num'] = fr(l['exponent'])
     elif c == 'BelongsTo':
-        ks = []
-        for v in l['set']:
-            if float(v) != int(v):
-                raise MachineryError('non-integer set element')
-            ks.append(int(v))
-        out['keys'] = sorted(ks)
+        vs = [float(v) for v in l['set']]
+        if all(v == int(v) for v in vs):
+            out['keys'] = sorted(int(v) for v in vs)
+        elif all(2 * v == int(2 * v) for v in vs):      # halves: the set is keys / 2
+            out['keys'] = sorted(int(2 * v) for v in vs)
+            out['num'] = [2, 1]
+        else:
+            raise MachineryError('set element that is neither an integer nor a half')
     elif c in ('Elem', '_bioLogLogit', '_bioLogLogitFullChoiceSet'):
         out['keys'] = l['keys']
     elif c == 'bioLinearUtility':
